@@ -86,22 +86,18 @@ IdentLoop(t, s) ==
 Ident(t, s) == Tok_(IdentLoop(t, [s EXCEPT !.usebuf = TRUE]), "TIDENT")
 
 (* number(): for (;;) { nextchar; switch (chr) ... } *)
-RECURSIVE NumberLoop(_, _, _, _)
-NumberLoop(t, s, allowsign, aftersign) ==     \* aftersign: the previous character was an accepted sign
+RECURSIVE NumberLoop(_, _, _)
+NumberLoop(t, s, allowsign) ==
   LET a == NextChar(t, s) IN
-  IF a.chr \in {"e", "E", "p", "P"} THEN NumberLoop(t, a, TRUE, FALSE)
-  ELSE IF a.chr \in {"+", "-"} THEN
-         IF ~allowsign THEN a
-         ELSE IF Dev("NumberSignRun")
-              THEN NumberLoop(t, IF aftersign THEN Fire(a, "NumberSignRun") ELSE a, TRUE, TRUE)   \* code: allowsign is left set after a sign
-              ELSE NumberLoop(t, a, FALSE, TRUE)
-  ELSE IF a.chr \in {"_", "."} THEN NumberLoop(t, a, FALSE, FALSE)
-  ELSE IF IsAlnum(a.chr) THEN NumberLoop(t, a, FALSE, FALSE)
+  IF a.chr \in {"e", "E", "p", "P"} THEN NumberLoop(t, a, TRUE)
+  ELSE IF a.chr \in {"+", "-"} THEN (IF allowsign THEN NumberLoop(t, a, FALSE) ELSE a)     \* allowsign = false after a sign (fix 629d756)
+  ELSE IF a.chr \in {"_", "."} THEN NumberLoop(t, a, FALSE)
+  ELSE IF IsAlnum(a.chr) THEN NumberLoop(t, a, FALSE)
   ELSE IF UCNAt(t, a) > 0 THEN
          IF Dev("NoUCNIdent") THEN Fire(a, "NoUCNIdent")
-         ELSE NumberLoop(t, NextChars(t, a, UCNAt(t, a) - 1), FALSE, FALSE)
+         ELSE NumberLoop(t, NextChars(t, a, UCNAt(t, a) - 1), FALSE)
   ELSE a
-Number(t, s) == Tok_(NumberLoop(t, [s EXCEPT !.usebuf = TRUE], FALSE, FALSE), "TNUMBER")
+Number(t, s) == Tok_(NumberLoop(t, [s EXCEPT !.usebuf = TRUE], FALSE), "TNUMBER")
 
 IsXDigit(c) == c \in HexDigit
 IsODigit(c) == c \in OctDigit
